@@ -372,7 +372,7 @@ ReuseVerdict(c) ==
 \* ---- kind "fold" (C12, C09) ----------------------------------------------------------
 (* extra.T / extra.v: type and value as projected by reflection from the   *)
 (* actual Go value; calls[1]: Fold with the events a plain Visitor saw.    *)
-FoldVerdict(c) ==
+FoldVerdict0(c) ==
   LET T == c.extra.T  v == c.extra.v  call == c.calls[1]  ev == call.ev
       refused == FoldRefused(T, v)  mayRefuse == TypeHasRefusal(T, 6) IN
   IF c.outcome # "ok" THEN <<"C12:outcome:" \o c.outcome, "C11:outcome:" \o c.outcome>>
@@ -382,6 +382,14 @@ FoldVerdict(c) ==
   ELSE (IF ~CWellFormed(ev, 1) THEN <<"C09:contract:" \o (IF CRun(ev).ok THEN "unbalanced at end" ELSE CRun(ev).why) \o " (Fold)">> ELSE <<>>)
        \o (IF Len(Values(ev)) # 1 THEN <<"C12:Fold did not emit exactly one value">>
            ELSE IF ~FoldAdmits(T, v, Values(ev)[1]) THEN <<"C12:folded value differs from the documented mapping">> ELSE <<>>)
+
+\* (C15 runs the fold programs whose types have registered or implemented folders - the paths that hand raw pointers
+\*  to user code - under the checkptr/race build: a different result there is C15's "produces the same results")
+FoldVerdict(c) ==
+  LET w == FoldVerdict0(c) IN
+  w \o (IF c.prop = "C15" /\ c.outcome # "ok" THEN <<"C15:outcome:" \o c.outcome \o " (Fold under checkptr)">> ELSE <<>>)
+    \o (IF c.prop = "C15" /\ \E j \in 1..Len(w) : w[j] \in {"C12:folded value differs from the documented mapping", "C12:Fold did not emit exactly one value"}
+        THEN <<"C15:folding through the library's raw-pointer paths (custom folders) produced a different result than the mapping">> ELSE <<>>)
 
 \* ---- kind "gort" (C11) -------------------------------------------------------------------
 GoRtVerdict(c) ==
